@@ -4,7 +4,9 @@
    gen_lock_ops_atomic    every LockManager op takes BOTH table guards once, before any table access
    gen_wait_under_locks   try_lock_with_wait_tracking updates the wait graph before dropping the guards
    gen_finish_releases    commit/abort/cleanup_timeouts call lock_manager.release(tx)
-   gen_finish_unwaits     commit/abort/cleanup_timeouts call wait_graph.remove_transaction(tx)"""
+   gen_finish_unwaits     commit/abort/cleanup_timeouts call wait_graph.remove_transaction(tx)
+   gen_detect_observes    DeadlockDetector::detect (deadlock.rs) only reads the wait-for graph: it calls no graph method other
+                          than detect_cycles / get_wait_start / get_priority (in particular no cleanup_stale_edges)"""
 import os
 import re
 import sys
@@ -39,7 +41,7 @@ def generate(repo):
     d_exp = "(N.ltb tmo (now - acq))"
     d_blk = "(andb (negb ex) (negb (N.eqb owner tx)))"
     exp_t, blk_t = d_exp, d_blk
-    atomic = wait_under = rel = unw = None
+    atomic = wait_under = rel = unw = observes = None
     try:
         src = strip_comments(read(repo, "tensor_chain/src/distributed_tx.rs"))
     except Exception as ex:  # noqa: BLE001
@@ -112,6 +114,15 @@ def generate(repo):
         except Exception as ex:  # noqa: BLE001
             items["finish releases by tx / leaves the wait graph"] = "miss:%s" % ex
 
+    try:
+        dsrc = strip_comments(read(repo, "tensor_chain/src/deadlock.rs"))
+        _, body = find_fn(dsrc, "detect", after=r"impl\s+DeadlockDetector\b")
+        calls = set(re.findall(r"(?:self\s*\.\s*)?graph\s*\.\s*(\w+)\s*\(", body))
+        observes = calls <= {"detect_cycles", "get_wait_start", "get_priority", "edge_count", "waiting_for", "is_empty"} and "detect_cycles" in calls
+        items["DeadlockDetector::detect only observes the graph"] = "translated" + ("" if observes else " (calls: %s)" % ",".join(sorted(calls)))
+    except Exception as ex:  # noqa: BLE001
+        items["DeadlockDetector::detect only observes the graph"] = "miss:%s" % ex
+
     def b(x, default):
         return "true" if (default if x is None else x) else "false"
 
@@ -129,6 +140,8 @@ def generate(repo):
         "Definition gen_finish_releases : bool := %s.\n"
         "(* ... and wait_graph.remove_transaction(tx_id) *)\n"
         "Definition gen_finish_unwaits : bool := %s.\n"
-        % (exp_t, blk_t, b(atomic, True), b(wait_under, True), b(rel, True), b(unw, True))
+        "(* DeadlockDetector::detect calls no mutating method of the wait-for graph *)\n"
+        "Definition gen_detect_observes : bool := %s.\n"
+        % (exp_t, blk_t, b(atomic, True), b(wait_under, True), b(rel, True), b(unw, True), b(observes, False))
     )
     return text, items
